@@ -1541,6 +1541,72 @@ IMGREC.call_skip = {'Q-is-qvars', 'umap-targets-are-levels', 'vmap-maps-levels-t
 
 
 # ---------------------------------------------------------------------------------------------------------------
+# model counting recursion (C10): `_sat_len` against the ghost count CNTF on nodes, defined by its recursion over the diagram for the
+# given compression `map_level` of the levels (ASSUMED here as the definition of the ghost, like IMG: that it is the number of
+# satisfying assignments over the compressed levels below a node is the textbook counting argument; the C10 driver compares `count`
+# with truth tables exhaustively for <= 5 variables)
+CNTF = _Fn('CNTF', I, I) if '_Fn' in globals() else None
+
+
+def _cnt_decl():
+    global CNTF, UNFC
+    from z3 import Function as F_
+    CNTF = F_('CNTF', I, I)
+    UNFC = F_('UNFOLD_CNT', I, B)
+
+
+_cnt_decl()
+
+
+def ml_of(S, ml, x):
+    return ml.val[S.lvl[x]]
+
+
+def cntr(S, ml, r):
+    """count read through a signed reference: the complement has the remaining assignments below the node's level"""
+    N = ml.extra['all']
+    return If(r > 0, CNTF(absz(r)), M.P2(N - ml_of(S, ml, absz(r))) - CNTF(absz(r)))
+
+
+RS = M.Array('RS', I, B)     # ghost: a set of nodes closed under children that contains the argument (the nodes the count is about)
+
+
+def cnt_axioms(S, ml):
+    N = ml.extra['all']
+    inR = lambda x: And(RS[x], S.dom[x])  # noqa
+    return [('P2-zero', M.P2(0) == 1), ('CNT-terminal', CNTF(1) == 1),
+            ('CNT-rec', ForAll([x_], Implies(And(inR(x_), x_ > 1), CNTF(x_) ==
+                                            M.mul(cntr(S, ml, S.lo[x_]), M.P2(ml_of(S, ml, absz(S.lo[x_])) - ml_of(S, ml, x_) - 1)) +
+                                            M.mul(cntr(S, ml, S.hi[x_]), M.P2(ml_of(S, ml, S.hi[x_]) - ml_of(S, ml, x_) - 1))),
+                               patterns=[UNFC(x_)])),
+            ('unfold-everywhere', ForAll([x_], UNFC(x_), patterns=[UNFC(x_)])),
+            ('nodes-of-interest-closed-under-children', ForAll([x_], Implies(RS[x_], And(
+                S.dom[x_], x_ >= 1, Implies(x_ > 1, And(RS[absz(S.lo[x_])], RS[S.hi[x_]])))), patterns=[RS[x_]])),
+            ('map_level-total-and-increasing-along-edges', ForAll([x_], Implies(RS[x_], And(
+                ml.has[S.lvl[x_]], ml_of(S, ml, x_) <= N, Implies(x_ > 1, And(ml_of(S, ml, x_) < ml_of(S, ml, absz(S.lo[x_])),
+                                                                            ml_of(S, ml, x_) < ml_of(S, ml, S.hi[x_]))))),
+                patterns=[RS[x_]])),
+            ('terminal-maps-to-all', ml_of(S, ml, IntVal(1)) == N)]
+
+
+def cnt_memo_valid(S, d):
+    return ForAll([x_], Implies(d.has[x_], And(RS[x_], S.dom[x_], x_ > 1, d.val[x_] == CNTF(x_))), patterns=[d.has[x_]])
+
+
+reg(Contract('dd.bdd.BDD._assert_int', [('self', 'mgr'), ('number', 'int')], pre=lambda c: [], post=lambda c: [('identity', c.r == c.a.number)], ret='int',
+             assumed=True, note='assumed: returns its argument when it is an int (`match number: case int()`); the engine only produces ints'))
+reg(Contract('dd.bdd.BDD._sat_len', [('self', 'mgr'), ('u', 'int'), ('map_level', 'dict:int->int'), ('d', 'dict:int->int')],
+             pre=lambda c: wf(c.S, set()) + [('ref', And(isref(c.S, c.a.u), RS[absz(c.a.u)])), ('memo', cnt_memo_valid(c.S, c.a.d)), ('unfold', UNFC(absz(c.a.u)))]
+             + cnt_axioms(c.S, c.a.map_level),
+             post=lambda c: [('count', c.r == cntr(c.S0, c.a.map_level, c.a.u)), ('memo', cnt_memo_valid(c.S0, c.muts['d'][1])),
+                             ('memo-keys-grow', ForAll([x_], Implies(c.muts['d'][0].has[x_], c.muts['d'][1].has[x_]), patterns=[c.muts['d'][0].has[x_]])),
+                             ('state-unchanged', M.keep(c.S0, c.S1))],
+             ret='int', uses=set(), mutates=['d']))
+REG['dd.bdd.BDD._sat_len'].call_skip = {'P2-zero', 'CNT-terminal', 'CNT-rec', 'unfold-everywhere', 'map_level-total-and-increasing-along-edges',
+                                         'terminal-maps-to-all', 'nodes-of-interest-closed-under-children'}
+
+
+# ---------------------------------------------------------------------------------------------------------------
 # descendants (C18): pointwise in the arbitrary node RT (family REACH); "reachable" as an inductive relation is lemma L-REACH
 def desc_complete(S, vis, from_level=None):
     """every visited node (at or below `from_level`) is finished: it is a stored node and, if RT is reachable from it, RT is
